@@ -321,6 +321,9 @@ pub fn stepmatch_vector(l: &Value) -> Value {
             if Value::Array(got) != row["groups"] {
                 table_ok = false;
             }
+            if row["whole"].as_str() != c.get(0).map(|m| m.as_str()) {
+                table_ok = false;
+            }
         }
     }
     let regs = l["regs"].as_array().unwrap();
